@@ -9,8 +9,8 @@ CHECK = dict(
          "Non-trivial = graph has an index, a shared/duplicate blob or a blob-typed index entry, or the case imports at least one archive variant (Docker: image has a layer); "
          "distinct by (graph shape, endpoints, options, pre-state, variant feature sets) resp. (style, image/layer shape, selection, variant).",
     jobs=[REPLAY,
-          rapid("prop", "TestVerifProp", 12000, 360000, sq=12, st=12),
-          rapid("docker", "TestVerifDocker", 4000, 120000, sq=4, st=4)],
+          rapid("prop", "TestVerifProp", 12000, 450000, sq=12, st=12, timeout={"quick": 900, "thorough": 5400}),
+          rapid("docker", "TestVerifDocker", 4000, 150000, sq=4, st=4, timeout={"quick": 900, "thorough": 5400})],
     technique="property-based testing (rapid): generated image graphs exported through the real client, the tar stream audited with archive/tar + crypto, "
               "metamorphic archive variants and harness-built Docker-format archives imported into an in-process model registry / raw OCI layouts; "
               "independent closure auditor as oracle",
